@@ -57,7 +57,10 @@ def circ_line(cid, state, hops, extra='', purp=0):
     s = '%d %s' % (cid, state)
     if p:
         s += ' ' + p
-    s += ' BUILD_FLAGS=%s PURPOSE=%s TIME_CREATED=2030-01-01T00:00:0%d.000000' % (BUILD_FLAGS[cid], purpose(cid, purp), cid)
+    s += ' BUILD_FLAGS=%s PURPOSE=%s' % (BUILD_FLAGS[cid], purpose(cid, purp))
+    if cid == 2 and not purp:
+        s += ' HS_STATE=HSCR_CONNECTING'          # a keyword Tor stops sending once the circuit is used for something else
+    s += ' TIME_CREATED=2030-01-01T00:00:0%d.000000' % cid
     if extra:
         s += ' ' + extra
     return s
